@@ -48,3 +48,81 @@ func (b *Uint64) Add(d uint64) uint64 { shim.Point("atomic"); return b.v.Add(d) 
 
 func AddInt64(p *int64, d int64) int64 { shim.Point("atomic"); return ratomic.AddInt64(p, d) }
 func LoadInt64(p *int64) int64         { shim.Point("atomic"); return ratomic.LoadInt64(p) }
+
+func (b *Uint32) Swap(n uint32) uint32 { shim.Point("atomic"); return b.v.Swap(n) }
+func (b *Int64) Swap(n int64) int64    { shim.Point("atomic"); return b.v.Swap(n) }
+func (b *Int32) Swap(n int32) int32    { shim.Point("atomic"); return b.v.Swap(n) }
+func (b *Int32) CompareAndSwap(o, n int32) bool {
+	shim.Point("atomic")
+	return b.v.CompareAndSwap(o, n)
+}
+func (b *Uint64) Swap(n uint64) uint64 { shim.Point("atomic"); return b.v.Swap(n) }
+func (b *Uint64) CompareAndSwap(o, n uint64) bool {
+	shim.Point("atomic")
+	return b.v.CompareAndSwap(o, n)
+}
+
+type Uintptr struct{ v ratomic.Uintptr }
+
+func (b *Uintptr) Load() uintptr         { shim.Point("atomic"); return b.v.Load() }
+func (b *Uintptr) Store(x uintptr)       { shim.Point("atomic"); b.v.Store(x) }
+func (b *Uintptr) Add(d uintptr) uintptr { shim.Point("atomic"); return b.v.Add(d) }
+func (b *Uintptr) Swap(n uintptr) uintptr {
+	shim.Point("atomic")
+	return b.v.Swap(n)
+}
+func (b *Uintptr) CompareAndSwap(o, n uintptr) bool {
+	shim.Point("atomic")
+	return b.v.CompareAndSwap(o, n)
+}
+
+type Pointer[T any] struct{ v ratomic.Pointer[T] }
+
+func (p *Pointer[T]) Load() *T     { shim.Point("atomic"); return p.v.Load() }
+func (p *Pointer[T]) Store(x *T)   { shim.Point("atomic"); p.v.Store(x) }
+func (p *Pointer[T]) Swap(n *T) *T { shim.Point("atomic"); return p.v.Swap(n) }
+func (p *Pointer[T]) CompareAndSwap(o, n *T) bool {
+	shim.Point("atomic")
+	return p.v.CompareAndSwap(o, n)
+}
+
+type Value struct{ v ratomic.Value }
+
+func (v *Value) Load() any      { shim.Point("atomic"); return v.v.Load() }
+func (v *Value) Store(x any)    { shim.Point("atomic"); v.v.Store(x) }
+func (v *Value) Swap(n any) any { shim.Point("atomic"); return v.v.Swap(n) }
+func (v *Value) CompareAndSwap(o, n any) bool {
+	shim.Point("atomic")
+	return v.v.CompareAndSwap(o, n)
+}
+
+func AddInt32(p *int32, d int32) int32      { shim.Point("atomic"); return ratomic.AddInt32(p, d) }
+func AddUint32(p *uint32, d uint32) uint32  { shim.Point("atomic"); return ratomic.AddUint32(p, d) }
+func AddUint64(p *uint64, d uint64) uint64  { shim.Point("atomic"); return ratomic.AddUint64(p, d) }
+func LoadInt32(p *int32) int32              { shim.Point("atomic"); return ratomic.LoadInt32(p) }
+func LoadUint32(p *uint32) uint32           { shim.Point("atomic"); return ratomic.LoadUint32(p) }
+func LoadUint64(p *uint64) uint64           { shim.Point("atomic"); return ratomic.LoadUint64(p) }
+func StoreInt32(p *int32, v int32)          { shim.Point("atomic"); ratomic.StoreInt32(p, v) }
+func StoreInt64(p *int64, v int64)          { shim.Point("atomic"); ratomic.StoreInt64(p, v) }
+func StoreUint32(p *uint32, v uint32)       { shim.Point("atomic"); ratomic.StoreUint32(p, v) }
+func StoreUint64(p *uint64, v uint64)       { shim.Point("atomic"); ratomic.StoreUint64(p, v) }
+func SwapInt32(p *int32, v int32) int32     { shim.Point("atomic"); return ratomic.SwapInt32(p, v) }
+func SwapInt64(p *int64, v int64) int64     { shim.Point("atomic"); return ratomic.SwapInt64(p, v) }
+func SwapUint32(p *uint32, v uint32) uint32 { shim.Point("atomic"); return ratomic.SwapUint32(p, v) }
+func SwapUint64(p *uint64, v uint64) uint64 { shim.Point("atomic"); return ratomic.SwapUint64(p, v) }
+func CompareAndSwapInt32(p *int32, o, n int32) bool {
+	shim.Point("atomic")
+	return ratomic.CompareAndSwapInt32(p, o, n)
+}
+func CompareAndSwapInt64(p *int64, o, n int64) bool {
+	shim.Point("atomic")
+	return ratomic.CompareAndSwapInt64(p, o, n)
+}
+func CompareAndSwapUint32(p *uint32, o, n uint32) bool {
+	shim.Point("atomic")
+	return ratomic.CompareAndSwapUint32(p, o, n)
+}
+func CompareAndSwapUint64(p *uint64, o, n uint64) bool {
+	shim.Point("atomic")
+	return ratomic.CompareAndSwapUint64(p, o, n)
+}
